@@ -1,5 +1,6 @@
 import EupsModel.Lemmas.Remove
 import EupsModel.Lemmas.DepsTopo
+import EupsModel.Lemmas.DepsGuard
 /-! Termination of the model of `Eups._remove` (with its visited set) on databases without unsetup lines. -/
 namespace EupsModel.Remove
 open EupsModel EupsModel.Deps
@@ -29,10 +30,20 @@ theorem directDeps_some (db : Db) (hns : NoUnsetup db) (p : Prod) (expand : Bool
     have hpos : 0 < db.fuel := by unfold Db.fuel; exact Nat.mul_pos (by omega) (by omega)
     obtain ⟨k, hk⟩ : ∃ k, db.fuel = k + 1 := ⟨db.fuel - 1, by omega⟩
     rw [hk]
-    unfold depsOf
+    unfold depsOf depsOfG
     obtain ⟨r, hr⟩ := depsLoop_nonrec_some db [] _ _ p 0 (tableMissing_false hns) (db.table p) [] _ (table_noUnsetup hns p)
     rw [hr]; exact ⟨_, rfl⟩
   · exact ⟨_, rfl⟩
+
+/-- listing the direct dependencies never runs out of fuel, whatever the tables say (tree with the D32 repair) -/
+theorem directDeps_not_fuel (db : Db) (p : Prod) (expand : Bool) : directDeps db p expand ≠ .error .outOfFuel := by
+  unfold directDeps
+  split
+  · split
+    · simp
+    · obtain ⟨o, st, h⟩ := depsOf_total db [] p false 0
+      rw [h]; simp
+  · simp
 
 /-- the loop does not run out of fuel if the nested calls do not, and the visited set only grows -/
 theorem collectLoop_fuel (db : Db) (sb : Option SetupBy) (force : Bool) (top : Str × Str) (recursive : Bool)
@@ -71,9 +82,9 @@ theorem collectLoop_fuel (db : Db) (sb : Option SetupBy) (force : Bool) (top : S
           exact ⟨i1, fun l seen' h x hx => i2 l seen' h x (hsub x hx)⟩
       · exact ih _ _ hk
 
-/-- **`_remove` ends** on databases without unsetup lines, dependency cycles included: with fuel beyond the
+/-- **`_remove` ends** on every database (unsetup lines, dependency cycles, missing table files): with fuel beyond the
 number of products still unopened (+2) the collection does not run out of fuel. -/
-theorem collect_fuel (db : Db) (hns : NoUnsetup db) (sb : Option SetupBy) (force : Bool) (dn : Option Str)
+theorem collect_fuel (db : Db) (sb : Option SetupBy) (force : Bool) (dn : Option Str)
     (top : Str × Str) :
     ∀ f name ver recursive seen, unopened db seen + 2 ≤ f →
       collect db sb force dn top f name ver recursive seen ≠ .error .outOfFuel ∧
@@ -93,8 +104,12 @@ theorem collect_fuel (db : Db) (hns : NoUnsetup db) (sb : Option SetupBy) (force
       · exact ⟨by simp, by intro l seen' h; simp at h⟩
       · rename_i p hp
         simp only
-        obtain ⟨deps, hdeps⟩ := directDeps_some db hns p (recursive && !seen.contains (prodkey p))
-        rw [hdeps]
+        cases hdeps : directDeps db p (recursive && !seen.contains (prodkey p)) with
+        | error e =>
+          simp only
+          refine ⟨?_, by intro l seen' h; simp at h⟩
+          intro h; injection h with h; subst h; exact directDeps_not_fuel _ _ _ hdeps
+        | ok deps =>
         simp only
         by_cases hex : (recursive && !seen.contains (prodkey p)) = true
         · -- the product is opened now: strictly fewer remain for the nested calls
